@@ -442,6 +442,26 @@ fn run_download(cx: &mut Ctx, d: &Download, sess: &mut Session, check_release: b
         let o = sess.step(Op::Req(d.ep, shape.spec(mid, None, None, &[])));
         if o.outcome != Outcome::Ok(false) {
             problems.push(("C08", "request after a completed transfer did not reach the application".into()));
+        } else {
+            // … and that second transfer (started WITHOUT a Block2 option) again starts at block 0
+            let body2 = body_of(&mut Rng(d.body.len() as u64 + 7), d.body.len() / 2 + 40);
+            let a2 = sess.step(Op::App(0x45, vec![], body2.clone()));
+            match &a2.resp {
+                Some(r) if matches!(a2.outcome, Outcome::Ok(_)) => match first_opt(r, 23).and_then(|b| parse_bv(&b)) {
+                    Some((num, _, szx)) => {
+                        let size = 16usize << szx;
+                        if num != 0 || r.payload != body2[..body2.len().min(size)] {
+                            problems.push(("C08", format!("second transfer on the same resource (no Block2 in its first request) starts with block {} instead of block 0", num)));
+                        }
+                    }
+                    None => {
+                        if r.payload != body2 {
+                            problems.push(("C08", "second transfer: unfragmented reply differs from the body".into()));
+                        }
+                    }
+                },
+                _ => problems.push(("C08", format!("second transfer on the same resource failed: {}", a2.outcome.token()))),
+            }
         }
     }
     cx.stat(if fragmented { "download_fragmented" } else { "download_unfragmented" });
@@ -563,6 +583,71 @@ fn run_upload(cx: &mut Ctx, u: &Upload, sess: &mut Session) {
     report(cx, sess, problems);
 }
 
+/// a single Block2 request for an arbitrary block (possibly num >= 1 with nothing cached) and the
+/// application's reply: whatever the handler sends must respect budget and client size (C10)
+fn run_block2_probe(cx: &mut Ctx, shape: &ReqShape, m: usize, num: usize, szx: u8, body: &[u8]) {
+    let mut sess = Session::new(m, 60000);
+    let o = sess.step(Op::Req(1, shape.spec(7, None, Some(bv_bytes(num, false, szx)), &[])));
+    let mut problems: Vec<(&'static str, String)> = vec![];
+    if o.outcome == Outcome::Ok(false) {
+        let a = sess.step(Op::App(0x45, vec![], body.to_vec()));
+        let ov = {
+            let mut p = Packet::new();
+            p.header.set_type(if shape.typ == 0 { coap_lite::MessageType::Acknowledgement } else { coap_lite::MessageType::NonConfirmable });
+            p.set_token(shape.tok.clone());
+            overhead_of(&p)
+        };
+        let ovq = overhead_of(&shape.spec(7, None, Some(bv_bytes(num, false, szx)), &[]).build());
+        if m >= ov + 28 && m >= ovq + 28 && m <= 1280 {
+            if let (Outcome::Ok(_), Some(r)) = (&a.outcome, &a.resp) {
+                let wl = r.to_bytes_unlimited().map(|b| b.len()).unwrap_or(usize::MAX);
+                if wl > m {
+                    problems.push(("C10", format!("reply to a Block2 request for block {} (size {}) has {} bytes, budget {}", num, 16usize << szx, wl, m)));
+                }
+                if let Some((_, _, s)) = first_opt(r, 23).and_then(|b| parse_bv(&b)) {
+                    if s > 6 || s > szx {
+                        problems.push(("C10", format!("block size exponent {} chosen for a client asking {}", s, szx)));
+                    }
+                }
+            }
+        }
+    }
+    report(cx, &sess, problems);
+}
+
+/// upload whose second block carries more options than the first (same cache key): the size
+/// acknowledged for it must be negotiated against ITS overhead (C10)
+fn run_upload_growing(cx: &mut Ctx, shape: &ReqShape, m: usize, szx: u8, extra: usize, body: &[u8]) {
+    let size = 16usize << szx;
+    let mut sess = Session::new(m, 60000);
+    let mut problems: Vec<(&'static str, String)> = vec![];
+    sess.step(Op::Req(1, shape.spec(1, Some(bv_bytes(0, true, szx)), None, &body[..size.min(body.len())])));
+    let mut grown = shape.clone();
+    grown.extra.push((15, vec![0x71; extra])); // Uri-Query is not part of the key
+    let spec2 = grown.spec(2, Some(bv_bytes(1, true, szx)), None, &body[size.min(body.len())..(2 * size).min(body.len())]);
+    let ov2 = overhead_of(&grown.spec(2, Some(bv_bytes(1, true, szx)), None, &[]).build());
+    let o = sess.step(Op::Req(1, spec2));
+    if m >= ov2 + 28 && m <= 1280 {
+        if let (Outcome::Ok(true), Some(r)) = (&o.outcome, &o.resp) {
+            if let Some((_, _, s)) = first_opt(r, 27).and_then(|b| parse_bv(&b)) {
+                let nsz = 16usize << s;
+                if nsz + ov2 + 12 > m + 12 && nsz + ov2 > m {
+                    problems.push(("C10", format!("block 1 acknowledged at size {} although overhead {} leaves only {} bytes of budget {}", nsz, ov2, m.saturating_sub(ov2), m)));
+                }
+                let next = grown.spec(3, Some(bv_bytes(2, true, s)), None, &vec![0u8; nsz]).build();
+                let nl = next.to_bytes_unlimited().map(|b| b.len()).unwrap_or(usize::MAX);
+                if nl > m {
+                    problems.push(("C10", format!("client's next upload block at the acknowledged size {} needs {} bytes, budget {}", nsz, nl, m)));
+                }
+                if s > szx {
+                    problems.push(("C10", "acknowledged size larger than the client's".into()));
+                }
+            }
+        }
+    }
+    report(cx, &sess, problems);
+}
+
 // ------------------------------------------------------------------ scenario C: hostile traffic (C11)
 
 fn hostile_request(rng: &mut Rng, shapes: &[ReqShape]) -> (u8, PktSpec) {
@@ -611,9 +696,11 @@ fn run_hostile(cx: &mut Ctx, rng: &mut Rng, shapes: &[ReqShape]) {
     let n = rng.range(1, 6);
     for _ in 0..n {
         let (ep, spec) = hostile_request(rng, shapes);
-        let before = sess.peek_of(&CoapRequest::from_packet(spec.build(), ep)).and_then(|p| p.buf).unwrap_or(0);
+        let before_opt = guarded(|| sess.peek_of(&CoapRequest::from_packet(spec.build(), ep))).unwrap_or(None).and_then(|p| p.buf);
+        let before = before_opt.unwrap_or(0);
         let had_response = (spec.vtt >> 4) & 3 < 2;
         let plen = spec.payload.len();
+        let b1_of_spec: Option<Vec<u8>> = spec.opts.iter().find(|(n, _)| *n == 27).map(|(_, v)| v.clone());
         let o = sess.step(Op::Req(ep, spec));
         let after = o.peek.as_ref().and_then(|p| p.buf);
         match &o.outcome {
@@ -633,6 +720,16 @@ fn run_hostile(cx: &mut Ctx, rng: &mut Rng, shapes: &[ReqShape]) {
                 }
             }
             Outcome::Ok(_) => {}
+        }
+        if let Outcome::Herr(_) = &o.outcome {
+            // a block whose end lies more than 16 KiB beyond the buffered data is rejected
+            // and leaves the buffered data unchanged
+            if let Some((num, _, szx)) = b1_of_spec.as_ref().and_then(|b| parse_bv(b)) {
+                let size = 16usize << szx;
+                if num > 0 && num <= 65535 && (num * size + size).saturating_sub(before) > 16384 && after.unwrap_or(0) != before {
+                    problems.push(("C11", format!("block {} (size {}) needed an oversize jump and was rejected, but the buffered upload changed from {} to {:?} bytes", num, size, before, after)));
+                }
+            }
         }
         if let Some(a) = after {
             if a > before + 16384 + plen {
@@ -981,6 +1078,46 @@ pub fn run(cx: &mut Ctx) {
             }
         }
     }
+    // replies whose length sits exactly around "payload + overhead == budget" (unfragmented threshold)
+    for shape in &shapes {
+        for &m in &[48usize, 64, 128, 300, 1152] {
+            let ov = {
+                let mut p = Packet::new();
+                p.header.set_type(if shape.typ == 0 { coap_lite::MessageType::Acknowledgement } else { coap_lite::MessageType::NonConfirmable });
+                p.set_token(shape.tok.clone());
+                overhead_of(&p)
+            };
+            for d in -16i64..=3 {
+                let len = m as i64 - ov as i64 + d;
+                if len < 0 {
+                    continue;
+                }
+                let body = body_of(&mut rng, len as usize);
+                let mut sess = Session::new(m, 60000);
+                run_download(cx, &Download { shape, ep: 1, m, body, resp_opts: vec![], first_szx: None, reduce_at: None }, &mut sess, false);
+            }
+        }
+    }
+    // Block2 requests that start at an arbitrary block with nothing cached
+    for shape in &shapes {
+        for &m in &[64usize, 100, 300, 1152] {
+            for num in [0usize, 1, 2, 5] {
+                for szx in [0u8, 2, 4, 6, 7] {
+                    let body = body_of(&mut rng, 3000);
+                    run_block2_probe(cx, shape, m, num, szx, &body);
+                }
+            }
+        }
+    }
+    // uploads whose later block carries more options
+    for shape in &shapes {
+        for &(m, szx) in &[(100usize, 2u8), (128, 2), (200, 3), (300, 4), (1152, 6)] {
+            for extra in [0usize, 10, 30, 60] {
+                let body = body_of(&mut rng, 4 * (16usize << szx));
+                run_upload_growing(cx, shape, m, szx, extra, &body);
+            }
+        }
+    }
     let nr = if thorough { 6000 } else { 800 };
     for _ in 0..nr {
         let shape = rng.pick(&shapes).clone();
@@ -1028,6 +1165,11 @@ pub fn run(cx: &mut Ctx) {
         }
     }
     cx.exhaustive.push("Block1 uploads at every size exponent 0..6 x body lengths around block multiples x duplicate patterns x abandoned prefixes of 0/3/6 blocks".into());
+    // long uploads at the smallest size: block numbers past 15 (scalar >= 256, two-byte option values)
+    for len in [16 * 16 + 5, 16 * 17, 16 * 17 + 9, 16 * 33 + 1] {
+        let mut sess = Session::new(64, 60000);
+        run_upload(cx, &Upload { shape: &shapes[0], ep: 1, m: 64, body: body_of(&mut rng, len), szx: 0, dups: vec![1, 2], abandoned: None, dup_final: 0 }, &mut sess);
+    }
     // K1 (known finding): final block delivered twice
     for len in [10usize, 40] {
         let mut sess = Session::new(64, 60000);
@@ -1065,6 +1207,28 @@ pub fn run(cx: &mut Ctx) {
     }
 
     // ---- C. hostile traffic
+    // directed: a rejected far-offset block in the middle of an upload must not disturb it
+    for (szx, far_num, far_szx) in [(0u8, 4095usize, 6u8), (1, 2000, 6), (0, 65535, 7), (2, 300, 6)] {
+        let size = 16usize << szx;
+        let body = body_of(&mut rng, 2 * size + 9);
+        let shape = &shapes[1];
+        let mut sess = Session::new(1152, 60000);
+        let mut problems: Vec<(&'static str, String)> = vec![];
+        sess.step(Op::Req(1, shape.spec(1, Some(bv_bytes(0, true, szx)), None, &body[..size])));
+        sess.step(Op::Req(1, shape.spec(2, Some(bv_bytes(1, true, szx)), None, &body[size..2 * size])));
+        let h = sess.step(Op::Req(1, shape.spec(3, Some(bv_bytes(far_num, true, far_szx)), None, &[0xEE; 32])));
+        if !matches!(h.outcome, Outcome::Herr(Some(c)) if c >= 0x80) {
+            problems.push(("C11", format!("far-offset block {} was not rejected with a renderable error: {}", far_num, h.outcome.token())));
+        }
+        if h.peek.as_ref().and_then(|p| p.buf) != Some(2 * size) {
+            problems.push(("C11", format!("rejected far-offset block changed the buffered upload: {:?} bytes instead of {}", h.peek.as_ref().and_then(|p| p.buf), 2 * size)));
+        }
+        let f = sess.step(Op::Req(1, shape.spec(4, Some(bv_bytes(2, false, szx)), None, &body[2 * size..])));
+        if f.outcome != Outcome::Ok(false) || f.req_payload != body {
+            problems.push(("C11", "upload interrupted by a rejected far-offset block did not complete with the original body".into()));
+        }
+        report(cx, &sess, problems);
+    }
     let nh = if thorough { 60000 } else { 8000 };
     for _ in 0..nh {
         run_hostile(cx, &mut rng, &shapes);
@@ -1098,8 +1262,8 @@ pub fn run(cx: &mut Ctx) {
         run_lifetime(cx, &mut rng, &shapes);
     }
     // retention with many intervening keys
-    for n_other in [1usize, 50, 500, 2000] {
-        if !thorough && n_other > 500 {
+    for n_other in [1usize, 50, 1100, 2000] {
+        if !thorough && n_other > 1100 {
             continue;
         }
         let mut sess = Session::new(64, 3_600_000);
